@@ -199,4 +199,16 @@ PropAdderR(a, b, out, r) == /\ RepR(Add(TypeMaxR(a, r), TypeMaxR(b, r)), out, r)
                             /\ RepR(Add(TypeMinR(a, r), TypeMinR(b, r)), out, r)
                             /\ StepR(out, r) <= Min(StepR(a, r), StepR(b, r))
 PropAdder(a, b, out) == PropAdderR(a, b, out, TRUE) \/ PropAdderR(a, b, out, FALSE)
+\* ------------------------------------------------------------ merge layers (merge_factory.py)
+\* Add: the adder property on the two operand types.  Maximum / Minimum / Concatenate select operand values: the output
+\* type has to contain both operand types.
+PropContainsR(a, out, r) == RepR(TypeMaxR(a, r), out, r) /\ RepR(TypeMinR(a, r), out, r) /\ StepR(out, r) <= StepR(a, r)
+PropMergeSelect(a, b, out) == \E r \in BOOLEAN : PropContainsR(a, out, r) /\ PropContainsR(b, out, r)
+\* as the code computes (after the repair of FractionDroppedByMerge): widest integer part and finest fraction
+Qb(t) == IF t.po2 THEN Po2ToQbits(t) ELSE t
+MFrac(t) == Qb(t).bits - Qb(t).int - Qb(t).sg
+DesignMergeAdd(a, b) == LET i == Max(Qb(a).int, Qb(b).int) + 1  s == Or(a.sg, b.sg)
+                        IN FixedT(i + s + Max(0, Max(MFrac(a), MFrac(b))), i, s)
+DesignMergeSelect(a, b) == LET i == Max(Qb(a).int, Qb(b).int)  s == Or(a.sg, b.sg)
+                           IN FixedT(i + s + Max(0, Max(MFrac(a), MFrac(b))), i, s)
 =============================================================================
